@@ -137,7 +137,7 @@ def _thin_ctor(F, PROT, thin, rep, tag):
             continue
         seen_keys.add(key)
         b = F.body(key)
-        owner = F.body(b["owner"]) if b["kind"] == "Closure" else b
+        owner = (F.body(b.get("owner")) or b) if b["kind"] == "Closure" else b
         params_in = any(in_typestate(F, PROT, t) for t in owner.get("inputs", []))
         ik = "%s/typestate-entry" % key
         if params_in:
@@ -410,7 +410,7 @@ def _collect(e, out):
 def _call_site(F, cb, bi, t, rep, tag, PROT):
     """A call of an unsafe typestate constructor from a safe function must be dominated by the true edge of the length check
     on the value being converted."""
-    owner = F.body(cb["owner"]) if cb["kind"] == "Closure" else cb
+    owner = (F.body(cb.get("owner")) or cb) if cb["kind"] == "Closure" else cb
     ik = "%s/call:%s" % (cb["key"], (F.body(atomics.callee_of(t)) or {}).get("name"))
     if owner.get("unsafe") or any(in_typestate(F, PROT, x) for x in owner.get("inputs", [])):
         return
